@@ -1,0 +1,32 @@
+// Copyright 2022-2026 Sauce Labs Inc., all rights reserved.
+//
+// This Source Code Form is subject to the terms of the Mozilla Public
+// License, v. 2.0. If a copy of the MPL was not distributed with this
+// file, You can obtain one at https://mozilla.org/MPL/2.0/.
+
+//go:build verif
+
+package forwarder
+
+import (
+	"context"
+	"crypto/tls"
+)
+
+// VerifMITMCert calls the certificate selection of the proxy's MITM configuration directly.
+func (hp *HTTPProxy) VerifMITMCert(hostname string) (*tls.Certificate, error) {
+	return hp.proxy.MITMConfig.VerifCert(context.Background(), hostname)
+}
+
+// VerifMITMCachePut stores a certificate of the caller's making in the proxy's leaf cache.
+func (hp *HTTPProxy) VerifMITMCachePut(key string, cert *tls.Certificate) {
+	hp.proxy.MITMConfig.VerifCachePut(key, cert)
+}
+
+// VerifMITMCacheGet reads the proxy's leaf cache.
+func (hp *HTTPProxy) VerifMITMCacheGet(key string) (*tls.Certificate, bool) {
+	return hp.proxy.MITMConfig.VerifCacheGet(key)
+}
+
+// VerifMITMCacheRemove drops an entry of the proxy's leaf cache.
+func (hp *HTTPProxy) VerifMITMCacheRemove(key string) { hp.proxy.MITMConfig.VerifCacheRemove(key) }
